@@ -160,7 +160,11 @@ class Check:
         shards = sorted(glob.glob(os.path.join(outdir, "cases_*.v")))
         def one(f):
             try:
-                rc, out = sh(["coqc", "-noglob"] + COQFLAGS + ["-o", f[:-2] + ".vo", f], timeout=timeout)
+                if self.s.get("shard_eval") == "coqtop":
+                    # optional: evaluate without producing a .vo (same vernac, faster); default is coqc
+                    rc, out = sh(["coqtop", "-q", "-batch"] + COQFLAGS + ["-l", f], timeout=timeout)
+                else:
+                    rc, out = sh(["coqc", "-noglob"] + COQFLAGS + ["-o", f[:-2] + ".vo", f], timeout=timeout)
             except subprocess.TimeoutExpired:
                 return f, -9, "timeout"
             return f, rc, out
